@@ -533,8 +533,14 @@ func (e *Env) constructorFresh(l *facts.Level, rule string) {
 	}
 	// a map allocated in the constructor itself (map[K]V{} or make(map[K]V)); ctorFields admits no map updates, so it is empty
 	x := fields[l.Names]
-	okNames := x != nil && x.Op == ir.OAlloc && x.Str == "map"
-	c.Check(okNames, rule, who+" names", e.P.Pos(ctor.Pos()), "a fresh empty map per object", "names is not initialised with a fresh empty map literal (nil map write would panic / shared map would leak state between objects)")
+	if l.NamesBits {
+		// a bit set: the empty set is the zero value (left out of the literal, or written as 0); being a value it is never shared
+		okBits := x == nil || (x.Op == ir.OConst && (x.C == nil || (x.C.Kind() == constant.Int && constant.Sign(x.C) == 0)))
+		c.Check(okBits, rule, who+" names", e.P.Pos(ctor.Pos()), "the empty bit set per object", "the names bit set does not start empty")
+	} else {
+		okNames := x != nil && x.Op == ir.OAlloc && x.Str == "map"
+		c.Check(okNames, rule, who+" names", e.P.Pos(ctor.Pos()), "a fresh empty map per object", "names is not initialised with a fresh empty map literal (nil map write would panic / shared map would leak state between objects)")
+	}
 	if l.Lower != nil {
 		lowerCtor := e.P.LookupFunc(l.Version.Pkg, "New"+l.Lower.Spec.Name)
 		y := fields[l.Embedded]
@@ -560,6 +566,9 @@ func (e *Env) constructorFresh(l *facts.Level, rule string) {
 				fv := stt.Field(fa.Field)
 				if fv != l.Names && (l.Embedded == nil || fv != l.Embedded) {
 					continue
+				}
+				if fv == l.Names && l.NamesBits {
+					continue // a bit set is updated by assignment; who may do so is write-ownership's rule
 				}
 				if fn.Object() == types.Object(ctor) {
 					continue
